@@ -197,6 +197,9 @@ func analyse(path string, F facts) {
 		for _, d := range f.Decls {
 			switch t := d.(type) {
 			case *ast.GenDecl:
+				if t.Tok == token.CONST && pk == "internal/geom" {
+					F.add("geomBodies", pk+" const #"+hash(t))
+				}
 				if t.Tok == token.VAR {
 					for _, s := range t.Specs {
 						for _, n := range s.(*ast.ValueSpec).Names {
@@ -214,6 +217,12 @@ func analyse(path string, F facts) {
 				}
 				if t.Body == nil {
 					continue
+				}
+				// code that has NO exact model (the numerical geometry behind the Splines router, and the deque it uses):
+				// the sampled validation of C19/C20 was run against exactly these bodies
+				if (pk == "internal/geom" || pk == "internal/collectors") && !strings.HasSuffix(fn, ".SVG") &&
+					!strings.HasSuffix(fn, ".String") && !strings.Contains(fn, "tack") && fn != "NewMat" {
+					F.add("geomBodies", pk+"."+fn+" #"+hash(t))
 				}
 				analyseFunc(pk, fn, t, info, F)
 			}
@@ -386,7 +395,7 @@ func leanStr(s string) string {
 func emit(F facts) {
 	keys := []string{"globals", "globalWrites", "inits", "imports", "mapRanges", "mapCalls", "nondet", "sorts", "panics",
 		"unboundedLoops", "recursive", "idReads", "stringKeyedMaps", "topoWrites", "sizeReadsPhases123", "floatLits",
-		"numConversions", "monitorCalls", "layoutMonitorStmts"}
+		"numConversions", "monitorCalls", "layoutMonitorStmts", "geomBodies"}
 	var b strings.Builder
 	b.WriteString("/-! GENERATED by /verif/extract from /repo's working tree on every check run. Do not edit. -/\n\nnamespace Autog.Facts\n\n")
 	for _, k := range keys {
